@@ -153,4 +153,66 @@ theorem zipWith_map_eq_map_zip {γ δ ε : Type} (f : γ → δ → ε) (g : δ 
   | x :: xs, [] => by simp
   | x :: xs, M :: Ms => by simp [zipWith_map_eq_map_zip f g xs Ms]
 
+/-! ### Series look-up (`fillna(0)`) and per-point tables -/
+
+/-- over an ordered field there is no NaN: `fillna(0)` is the identity -/
+theorem fillna0_eq (x : α) : fillna0 x = x := by simp [fillna0]
+
+theorem lookupSeries_eq (tbl : List (α × α)) (x : α) : lookupSeries tbl x = lookup tbl x := by
+  rw [lookupSeries, fillna0_eq]
+
+/-- column `j` of the per-point table is the single table of point `j` -/
+theorem column_tableMulti (n : ℕ) (maxLs : List α) (m : ℕ) (law : α → α) (j : ℕ) (M : α)
+    (hj : maxLs[j]? = some M) : column (tableMulti n maxLs m law) j = table n M m law := by
+  simp only [column, tableMulti, table, List.map_map]
+  apply List.map_congr_left
+  intro k _
+  simp [List.getD_eq_getElem?_getD, List.getElem?_map, hj]
+
+theorem mapM_option_cons {γ δ : Type} (f : γ → Option δ) (a : γ) (l : List γ) :
+    (a :: l).mapM f = match f a, l.mapM f with
+      | some b, some bs => some (b :: bs)
+      | _, _ => none := by
+  rw [List.mapM_cons]
+  cases f a <;> cases l.mapM f <;> rfl
+
+theorem mapM_option_eq_none_iff {γ δ : Type} (f : γ → Option δ) :
+    ∀ (l : List γ), l.mapM f = none ↔ ∃ a ∈ l, f a = none
+  | [] => by simp
+  | a :: l => by
+    rw [mapM_option_cons]
+    have ih := mapM_option_eq_none_iff f l
+    cases h1 : f a with
+    | none => simp [h1]
+    | some b =>
+      cases h2 : l.mapM f with
+      | none =>
+        obtain ⟨c, hc, hcn⟩ := ih.mp h2
+        simp only [true_iff]
+        exact ⟨c, List.mem_cons_of_mem _ hc, hcn⟩
+      | some bs =>
+        simp only [reduceCtorEq, false_iff]
+        rintro ⟨c, hc, hcn⟩
+        rcases List.mem_cons.mp hc with rfl | hc
+        · rw [h1] at hcn; exact Option.some_ne_none _ hcn
+        · have := ih.mpr ⟨c, hc, hcn⟩
+          rw [h2] at this; exact Option.some_ne_none _ this
+
+/-- the per-point look-ups from point `pre.length` on are the single look-ups of these points -/
+theorem lookupFrom_tableMulti (n m : ℕ) (law : α → α) :
+    ∀ (xs pre Ms : List α), Ms.length = xs.length →
+      lookupFrom (tableMulti n (pre ++ Ms) m law) pre.length xs
+        = (Ms.zip xs).mapM (fun p => binned n p.1 m law p.2)
+  | [], pre, Ms, h => by
+    have : Ms = [] := List.length_eq_zero_iff.mp h
+    subst this; rfl
+  | x :: xs, pre, [], h => by simp at h
+  | x :: xs, pre, M :: Ms, h => by
+    have hcol : column (tableMulti n (pre ++ M :: Ms) m law) pre.length = table n M m law :=
+      column_tableMulti n _ m law _ M (by simp)
+    have ih := lookupFrom_tableMulti n m law xs (pre ++ [M]) Ms (by simpa using h)
+    rw [List.append_assoc, List.singleton_append, List.length_append, List.length_singleton] at ih
+    rw [lookupFrom, hcol, ih, List.zip_cons_cons, mapM_option_cons]
+    rfl
+
 end PylifeVerif.Notch
